@@ -178,6 +178,12 @@ class C20(Family):
     # >>> C20-hist (call histories on kept objects; typed time stamps / long horizons: families/c20_hist.py)
     extra_modules = extra_modules + ["CtrlVerif.Props.C20Hist"]    # inverse laws along every call history
     # <<< C20-hist
+    # >>> C20-flat (source-text tie of LinearFlatSystem.__init__ / forward / reverse, _basis_flag_matrix, the
+    # boundary-condition statements of point_to_point, SystemTrajectory.eval: notes/NOTES-py2lean-flat.md)
+    extra_modules = extra_modules + ["CtrlVerif.Props.C20GenFlatInit", "CtrlVerif.Props.C20GenFlatMaps",
+                                     "CtrlVerif.Props.C20GenFlatMat", "CtrlVerif.Props.C20GenFlatP2P",
+                                     "CtrlVerif.Props.C20GenFlatEval", "CtrlVerif.Props.C20GenFlat"]
+    # <<< C20-flat
 
     def pre_build(self):
         import os
@@ -185,6 +191,12 @@ class C20(Family):
         repo = os.environ.get("VERIF_REPO") or "/repo"
         problems, self.gen_info = py2lean_arith.regenerate(
             repo, leanproj.LEAN, ("poly_eval_deriv", "bezier_eval_deriv"))
+        # >>> C20-flat
+        from core import py2lean_flat
+        problems_flat, gen_info_flat = py2lean_flat.regenerate(repo, leanproj.LEAN)
+        problems = list(problems) + list(problems_flat)
+        self.gen_info = dict(self.gen_info or {}, **gen_info_flat)
+        # <<< C20-flat
         return problems
     externals = ["numpy.linalg.lstsq (minimum-norm solution; the model computes M^T (M M^T)^-1 Z by a "
                  "certified exact solve, agreement is part of the correspondence)",
